@@ -94,12 +94,15 @@ def queryRaw (c : Char) : Bool :=
     allowed to stand for itself makes the URI malformed (`none`) -/
 def queryValue : List Char → Option (List Char)
   | [] => some []
-  | '%' :: a :: b :: r =>
-    match hexVal a, hexVal b with
-    | some x, some y => (queryValue r).map (Char.ofNat (x * 16 + y) :: ·)
-    | _, _ => none
   | c :: r =>
-    if c = '+' then (queryValue r).map (' ' :: ·)
+    if c = '%' then
+      match r with
+      | a :: b :: r' =>
+        match hexVal a, hexVal b with
+        | some x, some y => (queryValue r').map (Char.ofNat (x * 16 + y) :: ·)
+        | _, _ => none
+      | _ => none
+    else if c = '+' then (queryValue r).map (' ' :: ·)
     else if queryRaw c then (queryValue r).map (c :: ·)
     else none
 
